@@ -235,6 +235,21 @@ class Sess:
         return [e for e in self.rec.snapshot() if e.get("kind") == "cb" and e["n"] >= since]
 
 
+def started(factory, start=None, attempts=3):
+    """Build a session with `factory()` and run its handshake; a failed handshake (e.g. paramiko's own
+    15 s banner/handshake timers on an overloaded box) is retried with a fresh session.
+    Returns the started session or None."""
+    last = None
+    for _ in range(attempts):
+        sess = factory()
+        ok = start(sess) if start is not None else sess.start()
+        if ok:
+            return sess
+        last = sess
+        sess.close()
+    return None
+
+
 def episodes(rec, since=0):
     """One episode per message the victim read: dict(msg=<in event>, cbs=[...], out=[...]), in order.
     Events before the first read (handshake) are dropped; IGNORE reads close an episode but do not
